@@ -205,7 +205,7 @@ def main(tier):
     except ImportError:
         map_isa = None
     if map_isa is not None and not os.environ.get("MAP_NO_ISA"):
-        budget = 70 if quick else 900
+        budget = 95 if quick else 900
         map_isa.run(ck, tier, rng("C02-isa"), budget)
         ck.oblige("ISA-level oracle ran", True)
     else:
